@@ -798,8 +798,13 @@ def generic_history_many(sim, loc):
 def overall_case(draw):
     nrest = draw(st.integers(2, 5))
     nlev = draw(st.integers(1, 3))
-    return dict(levels=draw(level_history(nrest, nlev, gap_ok=True)),
-                numpy=draw(st.booleans()))
+    levels = draw(level_history(nrest, nlev, gap_ok=True))
+    if draw(st.integers(0, 5)) == 0:
+        # output restricted to selected levels: the labels skip one
+        skip = draw(st.integers(1, nlev))
+        levels = [{str(int(k) + (1 if int(k) >= skip else 0)): v
+                   for k, v in lv.items()} for lv in levels]
+    return dict(levels=levels, numpy=draw(st.booleans()))
 
 
 def level_class(seq):
@@ -1508,7 +1513,13 @@ def subchecks(tier):
                                        [512]),
                                   _lev([1024, 2048, 256], [1088], [544]),
                                   _lev([2304], [1152, 1280, 64])],
-                          numpy=True)],
+                          numpy=True),
+                     # 3D output on selected levels only: level 1 is written
+                     # by no restart, levels 2 and 3 are
+                     dict(levels=[{"0": [0, 64, 8], "2": [0, 64, 2],
+                                   "3": [0, 64, 1]},
+                                  {"0": [64, 128, 8], "2": [64, 128, 2]}],
+                          numpy=False)],
             shards=4 if q else 16, max_rounds=6),
         Sub("names", name_case(), test_names, 2000 if q else 100000,
             generic=GENERIC_NAMES, shards=2 if q else 16),
